@@ -17,7 +17,7 @@ func init() {
 	register(&propDef{
 		ID: "C04",
 		Meta: propMeta{
-			Explanation: "Decides on every path of the server's handlers that the authorization mechanisms are in front of every key use: (R04a) every chi route other than the frozen public set {/health, /directory} is registered on a router derived from With(authmodel.Middleware(s.auth)), and the middleware calls the next handler only after Authenticate returned a nil error, with the authenticated UserInfo in the request context; (R04b) in every authenticated handler, any touch of Server.tokens, signinit.Init/InitKey, Token.GetKey or Key.Sign* (directly or through same-package helpers) is guarded by Config.GetKey err==nil AND UserInfo.Allowed(keyConf)==true where keyConf is the value that GetKey returned, and the token/key actually used derive from that keyConf / the same key name; (R04c) the failing sides of those guards return httperror problems whose Status folds to 401/403, as do the named refusals of the authenticators; (R04d) identity-bearing headers (X-Forwarded-*, Forwarded, X-Real-Ip, Ssl-Client-*) and TLS peer certificates are read only inside internal/realip, headers only on the trusted-proxy side, RemoteAddr is assigned only by realip.Middleware, and the trusted marker is set only under `proxied`; (R04e) no dereference of a missed map lookup anywhere in the module (malformed configuration yields an error, not a crash); (R04f) the key listing appends a name only when entry and resolved alias are not hidden, the alias resolved, and Allowed(resolved) is true; (R04g) each Authenticator returns success only after the client was recognised / the policy allowed, and the roles come from the recognised client; Allowed implementations return true only from a role/key equality.",
+			Explanation: "Decides on every path of the server's handlers that the authorization mechanisms are in front of every key use: (R04a) every chi route other than the frozen public set {/health, /directory} is registered on a router derived from With(authmodel.Middleware(s.auth)), and the middleware calls the next handler only after Authenticate returned a nil error, with the authenticated UserInfo in the request context; (R04b) in every authenticated handler, any touch of Server.tokens, signinit.Init/InitKey, Token.GetKey or Key.Sign* (directly or through same-package helpers) is guarded by Config.GetKey err==nil AND UserInfo.Allowed(keyConf)==true where keyConf is the value that GetKey returned, and the token/key actually used derive from that keyConf / the same key name; (R04c) the failing sides of those guards return httperror problems whose Status folds to 401/403, as do the named refusals of the authenticators; (R04d) identity-bearing headers (X-Forwarded-*, Forwarded, X-Real-Ip, Ssl-Client-*) and TLS peer certificates are read only inside internal/realip, headers only on the trusted-proxy side, RemoteAddr is assigned only by realip.Middleware, and the trusted marker is set only under `proxied`; (R04e) no dereference of a missed map lookup anywhere in the module (malformed configuration yields an error, not a crash); (R04f) the key listing appends a name only when entry and resolved alias are not hidden, the alias resolved, and Allowed(resolved) is true; (R04g) each Authenticator returns success only after the client was recognised / the policy allowed, and the roles come from the recognised client; Allowed implementations return true only from a role/key equality; (R04i) trust configuration is used as configured: on the authentication path certificates are added only to pools created by that very call (never to a configured pool), trusted_proxies entries are parsed verbatim, and a bare address gets the full-length mask of its address family.",
 			NotDecided:  "correctness of X.509 chain matching (crypto/x509), of the OPA policy's answers, 401-vs-403 chosen by policy text at run time, and whether role-set semantics beyond 'an equality test guards true' are right.",
 			Assumptions: []string{"chi applies With() middlewares to every route registered on the derived router", "http.Request context values are only set by the middlewares enumerated"},
 		},
@@ -118,6 +118,7 @@ func runC04(c *Ctx) {
 	c.Rule(re, "no dereference of a missed map lookup (pointer element) anywhere in the module", 10)
 	c.Rule(rf, "list_keys appends a name only if not hidden (entry and resolved), resolved != nil and Allowed(resolved)", 1)
 	c.Rule("R04h", "in a handler that resolves a key, every use of the ResponseWriter after the lookup and every success return is guarded by GetKey err==nil and Allowed(keyConf)==true", 4)
+	c.Rule("R04i", "the trust configuration is used as configured: no request-time additions to configured certificate pools; proxy networks parsed verbatim with full-length host masks", 3)
 	c.Rule(rg, "authenticators succeed only for recognised clients / allowed policy decisions; Allowed returns true only from an equality of role or key name", 6)
 
 	authHandlers := c04Routes(c, ra)
@@ -137,6 +138,7 @@ func runC04(c *Ctx) {
 	c.runControl("R04e map-miss nil dereference control (ctl/nilmap.(*C).Get)", "nilmap.C).Get nil-deref", nilRegionDerefs)
 	c04Listing(c, rf)
 	c04Authenticators(c, rg, rc)
+	c04TrustConfig(c)
 }
 
 // c04Routes checks route registrations and returns the handler functions that run
@@ -1019,4 +1021,122 @@ func c04Authenticators(c *Ctx, rg, rc string) {
 		}
 		c.Check(n > 0, rg, p.FName(fn)+" can allow", p.Pos(fn.Pos()), "", "Allowed never returns true")
 	}
+}
+
+// ------------------------------------------------------------------------------ R04i
+
+// c04TrustConfig: the trust configuration is used as configured: certificates presented by a
+// caller are only ever added to a pool created for that very check, never to a configured
+// pool; trusted proxy networks are parsed from the configured strings as they are, and a bare
+// address becomes a single-host network of its own address family.
+func c04TrustConfig(c *Ctx) {
+	p := c.P
+	const ri = "R04i"
+	// AddCert / AppendCertsFromPEM on the request path
+	iface := p.ifaceNamed("internal/authmodel", "Authenticator")
+	var roots []*ssa.Function
+	if iface != nil {
+		for _, t := range p.implementersOf(iface) {
+			if f := p.methodOf(t, "Authenticate"); f != nil {
+				roots = append(roots, f)
+			}
+		}
+	}
+	if mw := p.Func("internal/realip.Middleware"); mw != nil {
+		roots = append(roots, withClosures(mw)...)
+	}
+	n := 0
+	for fn := range p.moduleReachOpt(roots, false) {
+		k := 0
+		for _, ci := range p.callsIn(fn, "(*crypto/x509.CertPool).AddCert", "(*crypto/x509.CertPool).AppendCertsFromPEM") {
+			n++
+			k++
+			key := fmt.Sprintf("%s adds to a pool#%d", p.FName(fn), k)
+			c.Analysed(p.FName(fn))
+			fresh := true
+			for _, lf := range phiLeaves(ci.Common().Args[0], nil, map[*ssa.Phi]bool{}) {
+				call, _ := resultOf(lf.V)
+				if call == nil || p.calleeName(call.Common()) != "crypto/x509.NewCertPool" || call.Parent() != fn {
+					fresh = false
+				}
+			}
+			c.Check(fresh, ri, key, p.Pos(ci.Pos()), "the pool was created by this call of the function", "certificates are added at request time to a certificate pool that outlives the request (a configured pool, not x509.NewCertPool() of this call): whatever a caller sends along with its leaf becomes a trust anchor or intermediate for every later caller")
+		}
+	}
+	if n < 1 {
+		c.Undecided(ri, "pool additions on the authentication path", "-", "none found (1 confirmed by reading: ClientConfig.Match)")
+	}
+	// trusted proxies
+	pt := p.Func("internal/realip.parseTrusted")
+	if pt == nil {
+		c.Undecided(ri, "realip.parseTrusted", "-", "function not found")
+		return
+	}
+	c.Analysed(p.FName(pt))
+	okVerbatim := true
+	nParse := 0
+	for _, ci := range p.callsIn(pt, "net.ParseCIDR", "net.ParseIP") {
+		nParse++
+		if dependsOnNoCall(ci.Common().Args[0], func(x ssa.Value) bool {
+			bo, ok := x.(*ssa.BinOp)
+			return ok && bo.Op == token.ADD
+		}) {
+			okVerbatim = false
+		}
+	}
+	c.Check(okVerbatim && nParse >= 2, ri, "parseTrusted parses the configured strings verbatim", p.Pos(pt.Pos()), "", "a trusted_proxies entry is rewritten (string concatenation) before it is parsed: the network that ends up trusted is not the one that was configured")
+	okMask := true
+	nMask := 0
+	for _, ci := range p.callsIn(pt, "net.CIDRMask") {
+		nMask++
+		ones, ok1 := constInt(ci.Common().Args[0])
+		bits, ok2 := constInt(ci.Common().Args[1])
+		if !ok1 || !ok2 || ones != bits {
+			okMask = false
+		}
+	}
+	c.Check(okMask && nMask == 2, ri, "a bare proxy address becomes a single-host network of its family", p.Pos(pt.Pos()), "CIDRMask(32,32) / CIDRMask(128,128)", "a bare address in trusted_proxies is not given the full-length mask of its address family: more hosts than the configured one are trusted to assert client identities")
+}
+
+// dependsOnNoCall: like dependsOn, but does not look through calls.
+func dependsOnNoCall(v ssa.Value, pred func(ssa.Value) bool) bool {
+	seen := map[ssa.Value]bool{}
+	var walk func(v ssa.Value) bool
+	walk = func(v ssa.Value) bool {
+		if v == nil || seen[v] {
+			return false
+		}
+		seen[v] = true
+		if pred(v) {
+			return true
+		}
+		switch x := v.(type) {
+		case *ssa.Phi:
+			for _, e := range x.Edges {
+				if walk(e) {
+					return true
+				}
+			}
+		case *ssa.BinOp:
+			return walk(x.X) || walk(x.Y)
+		case *ssa.Convert:
+			return walk(x.X)
+		case *ssa.ChangeType:
+			return walk(x.X)
+		case *ssa.Slice:
+			return walk(x.X)
+		case *ssa.UnOp:
+			if x.Op == token.MUL {
+				if a, ok := x.X.(*ssa.Alloc); ok {
+					for _, r := range *a.Referrers() {
+						if st, ok := r.(*ssa.Store); ok && st.Addr == ssa.Value(a) && walk(st.Val) {
+							return true
+						}
+					}
+				}
+			}
+		}
+		return false
+	}
+	return walk(v)
 }
